@@ -191,6 +191,19 @@ func (s *msim[K]) verify(what string, m mapReader[K], model map[string]uint64, p
 			s.violate("map/lowerbound", "%s: LowerBound(%q)=%v want %v", what, k, got, want)
 			return
 		}
+		// a sequence is a value: ranged again (after a full pass, and after a pass that was broken off) it yields the same entries
+		for qi, seq := range []iter.Seq2[K, uint64]{m.LowerBound(s.ky.to(k)), m.Prefix(s.ky.to(k)), m.All()} {
+			want := [][]kv{lowerOf(all, k), prefixOf(all, k), all}[qi]
+			if len(want) > 1 && s.rng.IntN(2) == 0 {
+				takeN(s.ky, seq, 1+s.rng.IntN(len(want)-1))
+			} else {
+				collect2(s.ky, seq)
+			}
+			if got := collect2(s.ky, seq); !eqkv(got, want) {
+				s.violate("map/sequence-ranged-again", "%s: the sequence returned by %s(%q), ranged a second time, yields %v want %v", what, []string{"LowerBound", "Prefix", "All"}[qi], k, got, want)
+				return
+			}
+		}
 	}
 }
 
